@@ -116,6 +116,14 @@ func OracleC07(r *SeqRun) []explore.Violation {
 		suffix := ""
 		if joined[hk] {
 			suffix = "/timing-inherited-from-oldest-holder"
+		} else {
+			for ok2 := range before {
+				if ok2.db == hk.db && ok2.key == hk.key && ok2 != hk && joined[ok2] {
+					// the oldest holder of a key whose other holders joined later: its record may be written AFTER theirs
+					// (records are logged when they become due, not in grant order) and the replay applies the Count rule
+					suffix = "/logged-after-a-co-holder-that-joined-later"
+				}
+			}
 		}
 		a, ok := after[hk]
 		switch cls {
@@ -200,7 +208,13 @@ func OracleC07(r *SeqRun) []explore.Violation {
 			av = ak.Value
 		}
 		if !bytes.Equal(valuePayload(av), valuePayload(k.Value)) {
-			add("value-differs", fmt.Sprintf("key db%d key%x carried value %x before the stop and %x after the restart", k.DB, k.Key[15], k.Value, av))
+			sig := "value-differs"
+			for _, st := range r.Steps {
+				if c := st.Op.Cmd; c != nil && c.Type == 2 && c.Data != nil && c.Key == k.Key[15] && c.DB == k.DB {
+					sig = "value-differs/written-by-an-unlock"
+				}
+			}
+			add(sig, fmt.Sprintf("key db%d key%x carried value %x before the stop and %x after the restart", k.DB, k.Key[15], k.Value, av))
 		}
 	}
 	return dedupe(vs)
@@ -268,6 +282,48 @@ func c07Specs(quick bool) []*SeqSpec {
 		op(0, withEF(L(0, 7, 1, 0, 0xffff, 0, 1), efZeroAof|fMilli)),
 		op(0, withEF(L(0, 8, 1, 0, 0x8000, 0, 1), efZeroAof)),
 		tick(1 * sec), tick(3 * sec),
+	}})
+	// terms shortened by an update before the hold is released or ends (the log then holds records whose own
+	// deadline has passed next to records that are still needed), unlocks carrying the priority flag, millisecond
+	// and unlimited flags combined, values written by zero-expiry requests and by unlocks of young co-holders
+	z := func(c hapi.Cmd) hapi.Cmd { return withEF(c, efZeroAof) }
+	v1 := protocol.NewLockCommandDataSetString("v1").Data
+	v2 := protocol.NewLockCommandDataSetString("v2").Data
+	rcfg := hapi.Config{FastKeys: 2, Concurrent: 2, FileBuf: 64, RewriteSz: 1 << 20, PreDBs: 2}
+	specs = append(specs, &SeqSpec{Name: "restart-shortened-terms", Cfg: rcfg, Depth: d, Restart: true, MaxStates: 300000, Alphabet: []SeqOp{
+		op(0, z(L(0, 10, 1, 0, 120, 0, 2))),
+		op(0, withF(z(L(0, 10, 1, 0, 2, 0, 2)), 0x02)),                           // update: 120 s -> 2 s
+		op(0, withF(withEF(L(0, 10, 1, 0, 1500, 0, 1), efZeroAof|fMilli), 0x02)), // update: -> 1500 ms
+		op(0, U(0, 10, 1)),
+		op(0, hapi.Cmd{Type: 2, Key: 10, Id: 1, TimeoutFlag: 0x10, Rcount: 2}), // unlock carrying the priority flag
+		op(1, z(L(0, 10, 2, 0, 120, 0, 0))),                                    // another LockId takes the key once it is free
+		tick(1 * sec), tick(5 * sec),
+	}})
+	specs = append(specs, &SeqSpec{Name: "restart-flag-combinations", Cfg: rcfg, Depth: d, Restart: true, MaxStates: 300000, Alphabet: []SeqOp{
+		op(0, withData(L(0, 11, 2, 0, 120, 1, 0), v1)),                                   // default persistence delay
+		op(1, L(0, 11, 1, 0, 120, 1, 0)),                                                 // young co-holder
+		op(1, withData(hapi.Cmd{Type: 2, Key: 11, Id: 1}, v2)),                           // ... whose unlock writes the value
+		op(1, withData(withEF(hapi.Cmd{Type: 1, Key: 11, Id: 3, Count: 1}, fMilli), v2)), // zero-expiry value operation with the millisecond flag
+		op(0, withEF(L(0, 12, 1, 0, 1, 0, 0), fUnlim|fMilli|efZeroAof)),                  // unlimited + millisecond flags
+		op(0, withEF(L(0, 13, 1, 0, 60000, 0, 0), fMilli)),                               // millisecond hold persisted after the default delay
+		tick(1 * sec), tick(4 * sec),
+	}})
+	// a configured persistence delay of 4 s (records written late carry the time that is LEFT) and of 50 s (longer than
+	// the 44 s a hold spends in the short expiry wheel before it moves to the long table)
+	late := rcfg
+	late.AofTime = 4
+	specs = append(specs, &SeqSpec{Name: "restart-persistence-delay-4s", Cfg: late, Depth: d, Restart: true, MaxStates: 300000, Alphabet: []SeqOp{
+		op(0, withEF(L(0, 13, 1, 0, 60000, 0, 0), fMilli)),
+		op(0, L(0, 14, 1, 0, 60, 0, 1)),
+		op(0, withEF(L(0, 15, 1, 0, 2, 0, 0), fMinute)),
+		tick(1 * sec), tick(4 * sec), tick(6 * sec),
+	}})
+	later := rcfg
+	later.AofTime = 50
+	specs = append(specs, &SeqSpec{Name: "restart-persistence-delay-50s", Cfg: later, Depth: 3, Restart: true, MaxStates: 300000, Alphabet: []SeqOp{
+		op(0, L(0, 14, 1, 0, 300, 0, 1)),
+		op(0, withEF(L(0, 15, 1, 0, 10, 0, 0), fMinute)),
+		tick(30 * sec), tick(25 * sec),
 	}})
 	// two restarts: whatever the first restart restores is released in the second incarnation and must stay released
 	specs = append(specs, &SeqSpec{Name: "restart-twice-buf64", Cfg: hapi.Config{FastKeys: 2, Concurrent: 2, FileBuf: 64, RewriteSz: 1 << 20, PreDBs: 2}, Alphabet: c07Alphabet(quick), Depth: d - 1, Restart: true, Restart2: true, MaxStates: 300000})
